@@ -25,8 +25,8 @@ def sjis_lines(kind, rng, n):
     leads = list(range(0x81, 0xA0)) + list(range(0xE0, 0xEB))
     out = []
     if kind == "trail5c":
-        for ld in leads:
-            out.append(b"; " + bytes([ld, 0x5C]) + b" tail")
+        for i, ld in enumerate(leads):     # alternately inside the comment and as its very last byte (0x5C = backslash in ASCII)
+            out.append(b"; " + bytes([ld, 0x5C]) + (b" tail" if i % 2 else b""))
     elif kind == "trail7c":
         for ld in leads:
             out.append(b"; " + bytes([ld, 0x7C]) + b" tail")
@@ -78,11 +78,16 @@ def run(ctx):
                 {"k": "label", "nm": "_start"}, {"k": "ins", "mn": "MOV", "ops": [{"t": "r", "w": 32, "n": 0}, {"t": "r", "w": 32, "n": 3}]}, {"k": "ins", "mn": "RET", "ops": []}]
     texts = {"flat": render.program(flatprog).encode(), "coff": render.program(coffprog).encode(), "empty": b"",
              "parseerr": b"\tMOV\tAX, 1\n\tMOV\tAX,,\n\tHLT\n"}
+    longprog = [{"k": "org", "v": 0x7c00}]
+    for i in range(1300):
+        longprog.append({"k": "ins", "mn": "MOV", "ops": [{"t": "r", "w": 16, "n": i % 8}, {"t": "i", "v": i, "sty": "d"}]})
+        longprog.append({"k": "data", "mn": "DB", "items": [{"t": "e", "e": {"o": "n", "v": i % 256}}]})
+    texts["long"] = render.program(longprog).encode()
     base_lines = render.program(flatprog).encode().split(b"\n")[:-1]
     # API reference bytes for each good text
     R = flow.Runner(ctx)
     refid = {}
-    for k in ("flat", "coff", "empty"):
+    for k in ("flat", "coff", "empty", "long"):
         refid[k] = R.add([], src=texts[k].decode(), notrace=True)
     # a source that makes the assembler die abnormally, if the tree under test has one (classified by actually running it)
     cand = [b"\tINT\t256\n", b"A\tEQU\tA+1\n\tDB\tA\n", b"\tINT\tAX\n"]
@@ -156,6 +161,12 @@ def run(ctx):
                     argv = ([flag] if flag else []) + [sp, dp, os.path.join(d, "out.lst")][:nargs]
                     observe({"nargs": nargs, "flag": flag, "src": src, "dst": dst}, argv,
                             srcbytes_expected=api.get(src), dstpath=dp if nargs >= 2 else (dp if dst in ("garbage", "isdir") else None))
+    # a long (2600-line) valid source: the command must give what the API gives
+    d = os.path.join(work, "long")
+    os.makedirs(d)
+    open(os.path.join(d, "in.nas"), "wb").write(texts["long"])
+    observe({"nargs": 2, "flag": "", "src": "flat", "dst": "absent"}, [os.path.join(d, "in.nas"), os.path.join(d, "out.bin")],
+            srcbytes_expected=api["long"], dstpath=os.path.join(d, "out.bin"))
     # source encodings: the comment-free form is `flat`
     kinds = ["trail5c", "trail7c", "hankana", "kanji", "utf8validkana"]
     enc_cases = []
